@@ -34,6 +34,9 @@ type Params struct {
 	// nothing (the producer is ahead of the consumer).
 	ExternalClose bool
 	Mode          int
+	// Pauses[i]: (virtual) time the consumer lets pass before its i-th call (a consumer slower than
+	// the source: items arrive before anybody asks for them).
+	Pauses []time.Duration
 }
 
 func (p Params) Name() string {
@@ -50,7 +53,7 @@ func (p Params) Name() string {
 			s += "v"
 		}
 	}
-	return fmt.Sprintf("batch/src=%s/size=%d/func=%v/timeouts=%v/closeAfter=%d/extClose=%v/timerMode=%d", s, p.Size, p.Func, p.Timeouts, p.CloseAfter, p.ExternalClose, p.Mode)
+	return fmt.Sprintf("batch/src=%s/size=%d/func=%v/timeouts=%v/pauses=%v/closeAfter=%d/extClose=%v/timerMode=%d", s, p.Size, p.Func, p.Timeouts, p.Pauses, p.CloseAfter, p.ExternalClose, p.Mode)
 }
 
 func (p Params) Body() func() {
@@ -110,7 +113,16 @@ func (p Params) Body() func() {
 			// A batch that is held back while this consumer waits with a live context (source blocked,
 			// no timer armed) leaves the consumer blocked with nothing able to run: the explorer
 			// reports that as a deadlock.
+			call := 0
+			blocks := len(p.Script) > 0 && p.Script[len(p.Script)-1].Block
 			for p.CloseAfter < 0 || nBatches < p.CloseAfter {
+				if blocks && delivered == len(items) {
+					break // everything the (now silent) source will ever yield has been delivered
+				}
+				if call < len(p.Pauses) && p.Pauses[call] > 0 {
+					hx.Sleep(p.Pauses[call])
+				}
+				call++
 				ctx := context.Background()
 				cancel := func() {}
 				live := true
@@ -216,5 +228,11 @@ func All() []Params {
 		{Script: []sx.Step{v(0), blk}, Size: 2, ExternalClose: true},
 		{Script: []sx.Step{v(0), v(1), v(2)}, Size: 2, CloseAfter: 1},
 		{Script: []sx.Step{v(0), v(1), v(2)}, Size: 2, CloseAfter: 0},
+		// a second, underfilled batch whose item arrives BEFORE the consumer asks again, the source
+		// then silent: the consumer asks 5 ms / 15 ms / 35 ms after the item arrived
+		{Script: []sx.Step{v(0), vd(1, 15*ms), blk}, Size: 3, Pauses: []time.Duration{0, 10 * ms}, CloseAfter: 2},
+		{Script: []sx.Step{v(0), vd(1, 15*ms), blk}, Size: 3, Pauses: []time.Duration{0, 20 * ms}, CloseAfter: 2, Mode: 1},
+		{Script: []sx.Step{v(0), vd(1, 15*ms), blk}, Size: 3, Pauses: []time.Duration{0, 40 * ms}, CloseAfter: 2},
+		{Script: []sx.Step{v(0), v(1), vd(2, 3*ms), blk}, Size: 2, Pauses: []time.Duration{20 * ms, 5 * ms}, CloseAfter: 2},
 	}
 }
